@@ -90,6 +90,15 @@ func (ip *Interp) pick(cands []*GoR) *GoR {
 	if len(opts) == 0 {
 		panic(&PathEnd{kind: "redundant", msg: "sleep-set blocked"})
 	}
+	if !ip.cfg.NoPOR {
+		// a goroutine that has not reached its first visible operation yet commutes with everything:
+		// run it first, no alternative order needs exploring
+		for _, c := range opts {
+			if c.pending == nil && c != ip.cur {
+				return c
+			}
+		}
+	}
 	k := ip.choose(len(opts))
 	if !ip.cfg.NoPOR {
 		for i := 0; i < k; i++ {
